@@ -705,7 +705,14 @@ func runCase(spec *Spec, kind string, idx int) *hx.Record {
 			ags = append(ags, fmt.Sprintf("(ACase %s %s)", hx.CoqList(ins), hx.CoqList(t.obs)))
 		}
 
-		rec.Coq = "(Case " + hx.CoqList(ags) + ")"
+		// the announced post-states of every connection of the two agents, in protocol order
+		var paths []string
+
+		for _, n := range []string{"alice", "bob"} {
+			paths = append(paths, w.agent(n).coqPaths()...)
+		}
+
+		rec.Coq = "(Case " + hx.CoqList(ags) + " " + hx.CoqList(paths) + ")"
 	}
 
 	return rec
